@@ -25,23 +25,34 @@ EXPLANATION = (
     "roles to the callers: the module bound to a target role at every train_step call is a target object of that loop. Parameters "
     "take their roles from the recorded signatures (by name, a renamed one by its position). A comparison that fails counts as a "
     "violation only on a value the engine has read completely and that is built from the documented vocabulary (a substituted module, "
-    "role, operation, axis, constant or sign); anything else is reported as an unrecognised form (undecided)."
+    "role, operation, axis, constant or sign); anything else is reported as an unrecognised form (undecided). "
+    "R8 reads the MR.Q encoder loss by evaluation instead of by shape: for a horizon of 3 and each of the 8 patterns of termination flags the value the "
+    "function returns is computed with the roll-out unrolled step by step (scan carry / broadcast / scanned arguments bound by in_axes, helpers and "
+    "masked_mse_loss evaluated through, records and comprehensions read); in a world the flags are numbers, so whatever builds the post-terminal weight "
+    "(carried product, cumprod / cumsum tables, where, logical operations, time-major scanning, a weight applied after the scan) folds to a number, while "
+    "network outputs and error terms stay symbolic and carry the step they were computed in. The errors of steps after the first terminated one must "
+    "vanish, those of the steps up to and including it must be the ones of the world without termination; a world and a step where this fails is the witness."
 )
 TRUSTED = [
     "optax.squared_error / l2_loss / huber_loss, jnp semantics of max / minimum / take_along_axis / clip",
     "the sampled Batch field order (observation, action, reward, next_observation, termination) parsed from ReplayBuffer.__init__",
     "jax.lax.stop_gradient blocks differentiation; argmax / comparisons have zero gradient",
     "network outputs and batch fields are 2-d / 1-d arrays: axis=-1 and axis=1 name the same axis",
+    "R8: nnx.scan / jax.lax.scan carry-and-stack semantics; the subtrajectory fields are (batch, time) arrays of length encoder_horizon; termination flags are 0/1; "
+    "a mean / sum over the batch is linear (the per-sample reading of a reduced term is kept); horizon 3 stands for every horizon; shapes / broadcasting are C07's",
 ]
 RULES = {
     "R1-target-identity": "the regression target is identically r + (1 - terminated) * gamma * B (MR.Q: (G + c*B*s_target)/s); terminated samples carry no bootstrap term",
-    "R2-bootstrap-kind": "B consists of exactly the documented calls (module, role data, combining operation): max / double-Q selection / clipped min / entropy term / value clip",
+    "R2-bootstrap-kind": "B consists of exactly the documented calls (module, role data, combining operation): max / double-Q selection / clipped min / entropy term / value clip; "
+                         "double-Q: for every order of the online action values (ties included) the bootstrap is the target value of one maximising action",
     "R3-prediction": "the prediction is the online module on (observation, action) and depends on no target-role module",
     "R4-stop-gradient": "nothing but the prediction depends differentiably on the differentiated module",
     "R5-regression-form": "the loss is the documented regression of P onto T (squared error / Huber of |P - T| / importance-weighted), one site per critic head",
     "R6-representation": "SALE: mean sq(zsa(o,a) - sg(zs(o'))); the embedding target is gradient-stopped",
     "R7-caller-roles": "at every call of a critic update in a training loop the target-role parameters receive target objects, the differentiated one the online object, "
                        "the batch comes from sample_batch and gamma is the gamma parameter",
+    "R8-rollout-mask": "MR.Q encoder loss: for every pattern of termination flags in a subtrajectory, the errors of the roll-out steps after the first terminated "
+                       "transition contribute nothing and the steps up to and including it contribute as if nothing had terminated",
 }
 
 L = "rl_blox.blox.losses."
@@ -660,6 +671,8 @@ def run(ck, repo: Repo, tier: str):
     ck.guard(_td7, ck, repo, nf)
     ck.guard(_mrq, ck, repo, nf)
     ck.guard(_sale, ck, repo, nf)
+    ck.guard(_encoder_rollout, ck, repo)
+    ck.guard(_ddqn_selection, ck, repo, order)
     ck.floor("critic-losses", n + 2, 10)
     ck.guard(_callers, ck, repo, order)
 
@@ -1164,8 +1177,1247 @@ def _callers(ck, repo, order):
         raise AnalysisError("; ".join(und[:4]))
 
 
+# ---- R8: the encoder roll-out, read per termination pattern -------------------------------------------------------------------
+# The documented representation loss of MR.Q weights the errors of roll-out step t with the product over the EARLIER steps of (1 - terminated):
+# a subtrajectory contributes its steps up to and including the terminated transition and nothing after it.  Whether the mask is carried
+# through the scan, precomputed for all steps, scanned time-major, built with cumprod / where / logical operations is a matter of
+# organisation.  The rule therefore does not look for a mask: it evaluates the value the loss function returns for a concrete small horizon,
+# once per pattern of termination flags (2^H worlds), with the roll-out unrolled step by step.  In a world the flags are numbers, so every
+# mask expression folds to a number; network outputs and error terms stay symbolic atoms that carry the step they were computed in.
+_ENC = "rl_blox.blox.embedding.model_based_encoder.model_based_encoder_loss"
+_HZ = 3                                    # unrolled horizon: every clause needs at most (a terminated step, one before, one after)
+_ERRFN = {"squared_error", "l2_loss", "huber_loss", "two_hot_cross_entropy_loss", "softmax_cross_entropy", "softmax_cross_entropy_with_integer_labels",
+          "sigmoid_binary_cross_entropy", "log_cosh"}
+_IDENT = {"asarray", "array", "astype", "float32", "float64", "float16", "bfloat16", "int32", "int64", "bool_", "stop_gradient", "copy", "float", "int", "bool",
+          "device_put", "atleast_1d", "ravel", "flatten", "squeeze", "reshape", "expand_dims", "view", "block_until_ready"}
+_METHODS = _IDENT | {"mean", "sum", "prod", "all", "any", "max", "min", "cumprod", "cumsum", "transpose", "swapaxes", "clip"}
+_STEP = re.compile(r"§(\d+)")
+
+
+class _Unread(Exception):
+    pass
+
+
+class _AxisMixup(Exception):
+    """Positive evidence found while evaluating: an entry of an array whose rows no longer belong to one sample is used."""
+
+
+class _V:
+    """A value of the roll-out evaluator.  k: 'num' (p: polynomial over symbolic atoms - a scalar or a per-sample vector), 'arr' (cols: one
+    polynomial per time step of an array with a time axis; axis: position of the time axis in a (batch, time) / (time, batch) array, None for
+    a one-dimensional sequence over time; stacked: the stacked per-step outputs of a scan), 'tup' (items, fields for records), 'batch',
+    'fn' (node, ctx), 'ref' (q: dotted name of a module-level / library object), 'none'.  taint: depends on the termination flags."""
+    __slots__ = ("k", "p", "cols", "axis", "items", "fields", "taint", "node", "ctx", "q", "stacked", "fill", "mixed")
+
+    def __init__(self, k, **kw):
+        self.k = k
+        for s in self.__slots__[1:]:
+            setattr(self, s, kw.get(s))
+        self.taint = bool(kw.get("taint"))
+
+
+def _num(p, taint=False, fill=False):
+    return _V("num", p=p, taint=taint, fill=fill)
+
+
+def _cst(c):
+    return _num(Poly.const(c))
+
+
+def _cval(v):
+    """The number a value folds to, None otherwise."""
+    if v.k == "num" and v.p.elems is None and v.p.is_const():
+        return v.p.const_value()
+    return None
+
+
+def _int(v):
+    c = _cval(v) if v is not None else None
+    return int(c) if c is not None and c.denominator == 1 else None
+
+
+class _Ctx:
+    def __init__(self, ev, fn, mi, bind, tag, parent=None, parent_at=None, depth=0):
+        self.fn, self.mi, self.bind, self.tag, self.parent, self.parent_at, self.depth = fn, mi, bind, tag, parent, parent_at, depth
+        self.cfg = ev.cfg(fn)
+        self.local, self.memo = {}, {}
+
+
+class _Rollout:
+    """Evaluates expressions of the repository in one world (a tuple of termination flags, one per time step)."""
+
+    def __init__(self, repo, world):
+        self.repo, self.world = repo, world
+        self._cfgs = {}
+        self.expand_sq = False          # read optax.squared_error(p, t) as (p - t)^2 instead of as one symbolic error term
+        self.abs_of = {}                # symbolic atom standing for |x| -> x
+        self.tainted = set()
+        self.fuel = 400000
+
+    def cfg(self, fn):
+        if id(fn) not in self._cfgs:
+            from ..cfg import CFG
+            self._cfgs[id(fn)] = CFG(fn)
+        return self._cfgs[id(fn)]
+
+    # -- symbolic atoms ------------------------------------------------------------------------------------------
+    def opaque(self, e, ctx, taint=False, suffix=""):
+        name = f"‹{short(e, 28)}#{getattr(e, 'lineno', 0)}.{getattr(e, 'col_offset', 0)}{suffix}{ctx.tag}›"
+        if taint:
+            self.tainted.add(name)
+        return _num(Poly.atom(name), taint)
+
+    def taint_of(self, exprs, ctx, at):
+        t = False
+        for a in exprs:
+            try:
+                t = t or self.vt(self.ev(a.value if isinstance(a, ast.Starred) else a, ctx, at))
+            except _Unread:
+                t = t or self.syn_taint(a, ctx, at, set())
+        return t
+
+    def syn_taint(self, e, ctx, at, seen):
+        """Dataflow reading of 'depends on the termination flags' for an expression the evaluator does not read: some name it is computed
+        from (through the definitions that reach it) is the termination field of the batch, the batch as a whole, or a value known to depend on them."""
+        stack = [e]
+        while stack:
+            x = stack.pop()
+            if isinstance(x, ast.Attribute) and isinstance(x.value, ast.Name):
+                try:
+                    v = self.name(x.value.id, ctx, at, x.value)
+                except _Unread:
+                    v = None
+                if v is not None and v.k == "batch":
+                    if x.attr == "terminated":
+                        return True
+                    continue
+            if isinstance(x, ast.Name):
+                if self.name_taint(x.id, ctx, at, seen):
+                    return True
+                continue
+            if isinstance(x, (ast.Lambda, ast.GeneratorExp, ast.ListComp, ast.SetComp, ast.DictComp)):
+                if any(isinstance(y, ast.Attribute) and y.attr == "terminated" for y in ast.walk(x)):
+                    return True
+            stack.extend(ast.iter_child_nodes(x))
+        return False
+
+    def name_taint(self, nm, ctx, at, seen):
+        if nm in ctx.local:
+            return self.vt(ctx.local[nm])
+        ds = ctx.cfg.defs_of(at, nm) if at is not None else []
+        if not ds:
+            return self.name_taint(nm, ctx.parent, ctx.parent_at, seen) if ctx.parent is not None else False
+        for d in ds:
+            key = (id(ctx), d.node, nm)
+            if key in seen:
+                continue
+            seen.add(key)
+            if d.kind == "param":
+                if d.name in ctx.bind and self.vt(ctx.bind[d.name]):
+                    return True
+            elif d.kind in ("funcdef", "classdef", "import"):
+                continue
+            elif d.value is not None:
+                if self.syn_taint(d.value, ctx, d.node, seen):
+                    return True
+            else:
+                return True
+        return False
+
+    def vt(self, v):
+        if v.k == "tup":
+            return any(self.vt(x) for x in v.items)
+        return v.taint or v.k == "batch"
+
+    # -- names -------------------------------------------------------------------------------------------------------
+    def name(self, nm, ctx, at, node):
+        if nm in ctx.local:
+            return ctx.local[nm]
+        ds = ctx.cfg.defs_of(at, nm) if at is not None else []
+        if not ds:
+            if ctx.parent is not None:
+                return self.name(nm, ctx.parent, ctx.parent_at, node)
+            q = self.repo.resolve_name(ctx.mi, nm)
+            if q is not None:
+                return _V("ref", q=q)
+            return _V("ref", q="builtins." + nm)
+        key = (nm, tuple(sorted(d.node for d in ds)))
+        if key in ctx.memo:
+            if ctx.memo[key] is None:
+                raise _Unread(f"`{nm}` is defined in terms of itself (a loop)")
+            return ctx.memo[key]
+        ctx.memo[key] = None
+        try:
+            vals = [self.defval(d, ctx) for d in ds]
+        except BaseException:
+            ctx.memo.pop(key, None)
+            raise
+        v = vals[0]
+        if len(vals) > 1:
+            if all(self.same(vals[0], x) for x in vals[1:]):
+                v = vals[0]
+            elif any(x.k != "num" for x in vals):
+                raise _Unread(f"`{nm}` has several definitions that are not plain numbers")
+            else:
+                # the definitions of different branches: which one is taken must not depend on the termination flags; the value is then read as a
+                # combination of the branch values with one free symbolic weight per branch (it vanishes only where every branch value vanishes)
+                for d in ds:
+                    for b, _lab in ctx.cfg.control_deps(d.node):
+                        s_ = ctx.cfg.nodes[b].ast
+                        if not isinstance(s_, ast.If) or self.taint_of([s_.test], ctx, b):
+                            raise _Unread(f"`{nm}` is defined in a loop / under a condition that depends on the termination flags")
+                p = Poly({})
+                for i, x in enumerate(vals):
+                    p = p + self.opaque(node, ctx, False, f"|branch{i}").p * x.p
+                v = _num(p, any(x.taint for x in vals))
+        ctx.memo[key] = v
+        return v
+
+    def same(self, a, b):
+        if a.k != b.k:
+            return False
+        if a.k == "num":
+            return a.p == b.p
+        if a.k == "arr":
+            return a.axis == b.axis and len(a.cols) == len(b.cols) and all(x == y for x, y in zip(a.cols, b.cols))
+        if a.k == "tup":
+            return len(a.items) == len(b.items) and all(self.same(x, y) for x, y in zip(a.items, b.items))
+        return a.k in ("batch", "none") or (a.k == "ref" and a.q == b.q) or (a.k == "fn" and a.node is b.node)
+
+    def defval(self, d, ctx):
+        if d.kind == "param":
+            if d.name in ctx.bind:
+                return ctx.bind[d.name]
+            return _num(Poly.atom(f"‹{d.name}{ctx.tag}›"))
+        if d.kind == "funcdef":
+            return _V("fn", node=d.value, ctx=ctx)
+        if d.kind in ("assign", "walrus") and d.value is not None:
+            return self.ev(d.value, ctx, d.node)
+        if d.kind == "unpack" and d.value is not None:
+            v = self.ev(d.value, ctx, d.node)
+            for i in d.path:
+                v = self.item(v, i, d.value, ctx)
+            return v
+        if d.kind == "classdef":
+            return _V("ref", q=None)
+        raise _Unread(f"`{d.name}` is defined by a `{d.kind}` statement")
+
+    def item(self, v, i, e, ctx):
+        if isinstance(i, tuple):                 # ('*', k): the starred rest of an unpacking
+            if v.k == "tup":
+                return _V("tup", items=list(v.items[i[1]:]), taint=v.taint)
+            raise _Unread("starred unpacking of a value that is not a tuple")
+        if v.k == "tup":
+            if -len(v.items) <= i < len(v.items):
+                return v.items[i]
+            raise _Unread("unpacking position outside the tuple")
+        if v.k == "num" and _cval(v) is None:
+            a = v.p.single_atom()
+            if a is None:
+                raise _Unread("unpacking of a computed value")
+            name = a[:-1] + f"[{i}]›"
+            if v.taint:
+                self.tainted.add(name)
+            return _num(Poly.atom(name), v.taint)
+        if v.k == "arr" and v.axis in (0, None) and isinstance(i, int) and i < len(v.cols):
+            return _num(v.cols[i], v.taint)
+        raise _Unread(f"unpacking of `{short(e, 40)}`")
+
+    # -- expressions -------------------------------------------------------------------------------------------------
+    def ev(self, e, ctx, at):
+        self.fuel -= 1
+        if self.fuel < 0:
+            raise _Unread("evaluation budget exhausted")
+        if isinstance(e, ast.Constant):
+            if e.value is None:
+                return _V("none")
+            if isinstance(e.value, (bool, int)):
+                return _cst(int(e.value))
+            if isinstance(e.value, float):
+                return _cst(Fraction(e.value).limit_denominator(10 ** 9))
+            return _V("ref", q=None)
+        if isinstance(e, ast.Name):
+            return self.name(e.id, ctx, at, e)
+        if isinstance(e, (ast.Tuple, ast.List)):
+            if any(isinstance(x, ast.Starred) for x in e.elts):
+                raise _Unread("starred element in a display")
+            items = [self.ev(x, ctx, at) for x in e.elts]
+            return _V("tup", items=items, taint=any(self.vt(x) for x in items))
+        if isinstance(e, ast.Attribute):
+            return self.attr(e, ctx, at)
+        if isinstance(e, ast.Subscript):
+            return self.subscript(e, ctx, at)
+        if isinstance(e, ast.BinOp):
+            return self.binop(e.op, self.ev(e.left, ctx, at), self.ev(e.right, ctx, at), e, ctx)
+        if isinstance(e, ast.UnaryOp):
+            v = self.ev(e.operand, ctx, at)
+            if isinstance(e.op, ast.USub):
+                return self.binop(ast.Mult(), _cst(-1), v, e, ctx)
+            if isinstance(e.op, ast.UAdd):
+                return v
+            return self.logical("logical_not", [v], e, ctx)
+        if isinstance(e, ast.Compare) and len(e.ops) == 1:
+            return self.compare(type(e.ops[0]).__name__, self.ev(e.left, ctx, at), self.ev(e.comparators[0], ctx, at), e, ctx)
+        if isinstance(e, ast.BoolOp):
+            vs = [self.ev(x, ctx, at) for x in e.values]
+            return self.logical("logical_and" if isinstance(e.op, ast.And) else "logical_or", vs, e, ctx)
+        if isinstance(e, ast.IfExp):
+            return self.where(self.ev(e.test, ctx, at), lambda: self.ev(e.body, ctx, at), lambda: self.ev(e.orelse, ctx, at), e, ctx)
+        if isinstance(e, ast.Call):
+            return self.call(e, ctx, at)
+        if isinstance(e, ast.Lambda):
+            return _V("fn", node=e, ctx=ctx)
+        if isinstance(e, (ast.GeneratorExp, ast.ListComp)) and len(e.generators) == 1 and not e.generators[0].ifs and (isinstance(e.generators[0].target, ast.Name)
+                                                                                                       or (isinstance(e.generators[0].target, ast.Tuple) and all(isinstance(y, ast.Name) for y in e.generators[0].target.elts))):
+            g = e.generators[0]
+            it = self.ev(g.iter, ctx, at)
+            if it.k != "tup":
+                raise _Unread(f"comprehension over `{short(g.iter, 40)}`")
+            out = []
+            names = [g.target.id] if isinstance(g.target, ast.Name) else [y.id for y in g.target.elts]
+            old = dict(ctx.local)
+            for x in it.items:
+                if isinstance(g.target, ast.Name):
+                    ctx.local[names[0]] = x
+                elif x.k == "tup" and len(x.items) == len(names):
+                    ctx.local.update(zip(names, x.items))
+                else:
+                    ctx.local = old
+                    raise _Unread(f"comprehension `{short(e, 50)}`")
+                out.append(self.ev(e.elt, ctx, at))
+            ctx.local = old
+            return _V("tup", items=out, taint=any(self.vt(x) for x in out))
+        if isinstance(e, ast.Slice):
+            return _V("ref", q=None)
+        if isinstance(e, ast.JoinedStr):
+            return _V("ref", q=None)
+        raise _Unread(f"expression `{short(e, 50)}`")
+
+    def attr(self, e, ctx, at):
+        v = self.ev(e.value, ctx, at)
+        if v.k == "ref":
+            return _V("ref", q=(v.q + "." + e.attr) if v.q else None)
+        if v.k == "batch":
+            if e.attr == "terminated":
+                return _V("arr", cols=[Poly.const(x) for x in self.world], axis=1, taint=True)
+            name = f"‹batch.{e.attr}›"
+            return _num(Poly.atom(name))
+        if v.k == "tup":
+            if v.fields and e.attr in v.fields:
+                return v.items[v.fields.index(e.attr)]
+            if v.fields and e.attr == "_replace":
+                raise _Unread("_replace of a record")
+            raise _Unread(f"attribute `{e.attr}` of a tuple")
+        if v.k == "arr":
+            if e.attr == "T":
+                return self.flip(v)
+            if e.attr in ("shape", "dtype", "ndim", "size"):
+                return self.opaque(e, ctx, False)
+            if e.attr == "at":
+                return _V("tup", items=[v], fields=["__at__"], taint=v.taint)
+            return _V("fn", node=e.attr, ctx=v)            # a bound method of an array
+        if v.k == "num":
+            if e.attr in ("T", "real"):
+                return v
+            if e.attr in ("shape", "dtype", "ndim", "size"):
+                return self.opaque(e, ctx, False)
+            if _cval(v) is not None or (v.p.single_atom() is None) or e.attr in _METHODS:
+                return _V("fn", node=e.attr, ctx=v)        # a bound method of a computed value
+            a = v.p.single_atom()
+            name = a[:-1] + f".{e.attr}›"
+            if v.taint:
+                self.tainted.add(name)
+            return _num(Poly.atom(name), v.taint)
+        if v.k == "none":
+            raise _Unread("attribute of None")
+        raise _Unread(f"attribute `{short(e, 40)}`")
+
+    def flip(self, v):
+        if v.axis is None:
+            return v
+        return _V("arr", cols=v.cols, axis=1 - v.axis, taint=v.taint, stacked=v.stacked, mixed=v.mixed)
+
+    def entry(self, v, p):
+        """One time step of array v as a per-sample value."""
+        if v.mixed and not v.taint:
+            if all(q == v.cols[0] for q in v.cols):
+                return _num(p, False)                         # the same value everywhere: which entry is taken does not matter
+            raise _Unread(f"`{v.mixed}` reshapes a (batch, time) array to (time, -1)")
+        if v.mixed:
+            raise _AxisMixup(f"`{v.mixed}` turns a (batch, time) array into (time, -1) by reshaping: that is not the transpose - row t, column b of the result is entry "
+                             f"t * batch + b of the flattened array, a termination flag of another sample / step (batch size >= 2, horizon >= 2); the value used "
+                             f"for step t of a sample is therefore not that sample's own termination history")
+        return _num(p, v.taint)
+
+    def index_parts(self, s, ctx, at):
+        """The index of a subscript as a list of ('all',) / ('new',) / ('int', k) / ('slice', python slice) / ('other', tainted)."""
+        elts = s.elts if isinstance(s, ast.Tuple) else [s]
+        out = []
+        for x in elts:
+            if isinstance(x, ast.Slice):
+                b = []
+                for y in (x.lower, x.upper, x.step):
+                    if y is None:
+                        b.append(None)
+                    else:
+                        k = _int(self.ev(y, ctx, at))
+                        if k is None:
+                            b = None
+                            break
+                        b.append(k)
+                if b is None:
+                    out.append(("other", self.taint_of([y for y in (x.lower, x.upper, x.step) if y is not None], ctx, at)))
+                elif b == [None, None, None]:
+                    out.append(("all",))
+                else:
+                    out.append(("slice", slice(*b)))
+                continue
+            if isinstance(x, ast.Constant) and x.value is None:
+                out.append(("new",))
+                continue
+            if isinstance(x, ast.Constant) and x.value is Ellipsis:
+                out.append(("all",))
+                continue
+            v = self.ev(x, ctx, at)
+            if v.k == "ref" and v.q and v.q.endswith(".newaxis"):
+                out.append(("new",))
+            elif v.k == "none":
+                out.append(("new",))
+            elif _int(v) is not None:
+                out.append(("int", _int(v)))
+            else:
+                out.append(("other", self.vt(v)))
+        return out
+
+    def pick(self, cols, part):
+        if part[0] == "int":
+            if -len(cols) <= part[1] < len(cols):
+                return cols[part[1]]
+            raise _Unread("index outside the time axis")
+        return cols[part[1]]
+
+    def subscript(self, e, ctx, at):
+        v = self.ev(e.value, ctx, at)
+        if v.k == "tup":
+            if v.fields == ["__at__"]:
+                return _V("tup", items=[v.items[0], e.slice], fields=["__at__", "__idx__"], taint=v.taint)
+            k = _int(self.ev(e.slice, ctx, at)) if not isinstance(e.slice, ast.Slice) else None
+            if k is not None and -len(v.items) <= k < len(v.items):
+                return v.items[k]
+            if isinstance(e.slice, ast.Slice):
+                parts = self.index_parts(e.slice, ctx, at)
+                if parts[0][0] == "slice":
+                    return _V("tup", items=v.items[parts[0][1]], taint=v.taint)
+                if parts[0][0] == "all":
+                    return v
+            raise _Unread(f"subscript of a tuple `{short(e, 40)}`")
+        if v.k == "batch":
+            raise _Unread(f"positional field of the batch `{short(e, 40)}`")
+        parts = self.index_parts(e.slice, ctx, at)
+        if v.k == "num":
+            if all(p[0] in ("all", "new", "slice") for p in parts):
+                return v                                    # layout of a per-sample value / of a filled array
+            if v.fill and _cval(v) is not None:
+                return v
+            t = v.taint or any(p[0] == "other" and p[1] for p in parts)
+            if t:
+                raise _Unread(f"subscript `{short(e, 50)}` of a value that depends on the termination flags")
+            return self.opaque(e, ctx, False)
+        if v.k == "arr":
+            real = [p for p in parts if p[0] != "new"]
+            if len(real) != len(parts):
+                raise _Unread(f"new axis in `{short(e, 50)}`")
+            if any(p[0] == "other" for p in real):
+                raise _Unread(f"index of `{short(e, 50)}` is not a number in the unrolled roll-out")
+            if v.axis is None:
+                if len(real) != 1:
+                    raise _Unread(f"subscript `{short(e, 50)}`")
+                sel = [real[0]]
+                tpos = 0
+            else:
+                tpos = v.axis
+                sel = real + [("all",)] * (2 - len(real))
+                if len(sel) != 2:
+                    raise _Unread(f"subscript `{short(e, 50)}`")
+                if sel[1 - tpos][0] != "all":
+                    raise _Unread(f"`{short(e, 50)}` selects along the batch axis")
+            tp = sel[tpos if v.axis is not None else 0]
+            if tp[0] == "all":
+                return v
+            if tp[0] == "int":
+                return self.entry(v, self.pick(v.cols, tp))
+            return _V("arr", cols=list(v.cols[tp[1]]), axis=v.axis, taint=v.taint, stacked=v.stacked, mixed=v.mixed)
+        if v.k == "ref":
+            return _V("ref", q=None)
+        raise _Unread(f"subscript `{short(e, 50)}`")
+
+    # -- arithmetic ----------------------------------------------------------------------------------------------------
+    def lift(self, f, a, b, e, ctx):
+        """Apply a binary operation on polynomials element-wise over numbers and time arrays."""
+        t = a.taint or b.taint
+        if a.k == "num" and b.k == "num":
+            return _num(f(a.p, b.p), t)
+        if a.k == "arr" and b.k == "arr":
+            if a.axis != b.axis or len(a.cols) != len(b.cols):
+                raise _Unread(f"`{short(e, 50)}` combines arrays of different layout")
+            return _V("arr", cols=[f(x, y) for x, y in zip(a.cols, b.cols)], axis=a.axis, taint=t, stacked=a.stacked and b.stacked, mixed=a.mixed or b.mixed)
+        if a.k == "arr" and b.k == "num":
+            if _cval(b) is None and not a.stacked:
+                raise _Unread(f"`{short(e, 50)}` combines a (batch, time) array with a per-sample value")
+            return _V("arr", cols=[f(x, b.p) for x in a.cols], axis=a.axis, taint=t, stacked=a.stacked, mixed=a.mixed)
+        if a.k == "num" and b.k == "arr":
+            if _cval(a) is None and not b.stacked:
+                raise _Unread(f"`{short(e, 50)}` combines a (batch, time) array with a per-sample value")
+            return _V("arr", cols=[f(a.p, y) for y in b.cols], axis=b.axis, taint=t, stacked=b.stacked, mixed=b.mixed)
+        raise _Unread(f"operands of `{short(e, 50)}`")
+
+    def binop(self, op, a, b, e, ctx):
+        if a.k not in ("num", "arr") or b.k not in ("num", "arr"):
+            if a.k == "tup" and b.k == "tup" and isinstance(op, ast.Add):
+                return _V("tup", items=a.items + b.items, taint=a.taint or b.taint)
+            if self.vt(a) or self.vt(b):
+                raise _Unread(f"operands of `{short(e, 50)}`")
+            return self.opaque(e, ctx, False)
+        if isinstance(op, ast.Add):
+            return self.lift(lambda x, y: x + y, a, b, e, ctx)
+        if isinstance(op, ast.Sub):
+            return self.lift(lambda x, y: x - y, a, b, e, ctx)
+        if isinstance(op, ast.Mult):
+            return self.lift(lambda x, y: x * y, a, b, e, ctx)
+        if isinstance(op, ast.BitAnd):
+            return self.logical("logical_and", [a, b], e, ctx)
+        if isinstance(op, ast.BitOr):
+            return self.logical("logical_or", [a, b], e, ctx)
+        if isinstance(op, ast.Div):
+            def div(x, y):
+                if y.is_const():
+                    if y.const_value() == 0:
+                        raise _Unread(f"division by zero in `{short(e, 50)}`")
+                    return x.scale(1 / y.const_value())
+                if len(y.terms) == 1:
+                    return x * y.inv()
+                raise _Unread(f"division by a sum in `{short(e, 50)}`")
+            return self.lift(div, a, b, e, ctx)
+        if isinstance(op, ast.Pow):
+            k = _int(b)
+            if k is not None and k in (2, 4) and a.k == "num" and a.p.single_atom() in self.abs_of:
+                return _num(self.abs_of[a.p.single_atom()].pow(k), a.taint)        # |x|^2 == x^2
+            if k is not None and 0 <= k <= 4 and a.k in ("num", "arr"):
+                return self.lift(lambda x, _y: x.pow(k), a, _cst(0), e, ctx)
+        ca, cb = _cval(a), _cval(b)
+        if ca is not None and cb is not None:
+            try:
+                if isinstance(op, ast.FloorDiv):
+                    return _num(Poly.const(ca // cb), a.taint or b.taint)
+                if isinstance(op, ast.Mod):
+                    return _num(Poly.const(ca % cb), a.taint or b.taint)
+            except ZeroDivisionError:
+                pass
+        if a.taint or b.taint:
+            raise _Unread(f"operation `{short(e, 50)}` on a value that depends on the termination flags")
+        return self.opaque(e, ctx, False)
+
+    def fold(self, f, vs, e, ctx):
+        """Element-wise operation that is only read on numbers: f(list of Fractions) -> Fraction."""
+        def g(*ps):
+            cs = [p.const_value() if p.is_const() else None for p in ps]
+            if any(c is None for c in cs):
+                raise KeyError
+            return Poly.const(f(cs))
+        try:
+            if len(vs) == 1:
+                return self.lift(lambda x, _y: g(x), vs[0], _cst(0), e, ctx)
+            if len(vs) == 2:
+                return self.lift(lambda x, y: g(x, y), vs[0], vs[1], e, ctx)
+        except KeyError:
+            pass
+        if any(self.vt(v) for v in vs):
+            raise _Unread(f"`{short(e, 50)}` on a symbolic value that depends on the termination flags")
+        return self.opaque(e, ctx, False)
+
+    def compare(self, op, a, b, e, ctx):
+        table = {"Eq": lambda c: c[0] == c[1], "NotEq": lambda c: c[0] != c[1], "Lt": lambda c: c[0] < c[1], "LtE": lambda c: c[0] <= c[1],
+                 "Gt": lambda c: c[0] > c[1], "GtE": lambda c: c[0] >= c[1]}
+        if op in table and a.k in ("num", "arr") and b.k in ("num", "arr"):
+            return self.fold(lambda c: Fraction(int(table[op](c))), [a, b], e, ctx)
+        if self.vt(a) or self.vt(b):
+            raise _Unread(f"comparison `{short(e, 50)}`")
+        return self.opaque(e, ctx, False)
+
+    def logical(self, fn, vs, e, ctx):
+        if any(v.k not in ("num", "arr") for v in vs):
+            if any(self.vt(v) for v in vs):
+                raise _Unread(f"`{short(e, 50)}`")
+            return self.opaque(e, ctx, False)
+        if fn == "logical_not":
+            return self.fold(lambda c: Fraction(int(c[0] == 0)), vs, e, ctx)
+        out = vs[0]
+        for v in vs[1:]:
+            out = self.fold((lambda c: Fraction(int(c[0] != 0 and c[1] != 0))) if fn == "logical_and" else (lambda c: Fraction(int(c[0] != 0 or c[1] != 0))), [out, v], e, ctx)
+        return out
+
+    def where(self, c, fa, fb, e, ctx):
+        cc = _cval(c)
+        if cc is not None:
+            return fa() if cc != 0 else fb()
+        a, b = fa(), fb()
+        if c.k == "arr" and all(p.is_const() for p in c.cols):
+            def colsof(v):
+                if v.k == "arr" and v.axis == c.axis and len(v.cols) == len(c.cols):
+                    return v.cols
+                if v.k == "num" and _cval(v) is not None:
+                    return [v.p] * len(c.cols)
+                raise _Unread(f"branches of `{short(e, 50)}`")
+            ca, cb = colsof(a), colsof(b)
+            return _V("arr", cols=[x if k.const_value() != 0 else y for k, x, y in zip(c.cols, ca, cb)], axis=c.axis, taint=True)
+        if c.k == "num" and not c.taint and a.k == "num" and b.k == "num":
+            # a symbolic condition that does not depend on the flags (environment_terminates): both branches, weighted by the condition
+            return _num(c.p * a.p + (Poly.const(1) - c.p) * b.p, a.taint or b.taint)
+        if self.same(a, b):
+            return a
+        raise _Unread(f"selection `{short(e, 50)}` on a symbolic condition")
+
+    # -- calls ---------------------------------------------------------------------------------------------------------
+    def args_of(self, c, ctx, at):
+        if any(k.arg is None for k in c.keywords):
+            raise _Unread(f"`{short(c, 50)}` passes packed keyword arguments")
+        args = []
+        for a in c.args:
+            if isinstance(a, ast.Starred):
+                v = self.ev(a.value, ctx, at)
+                if v.k == "tup":
+                    args += v.items
+                elif self.vt(v):
+                    raise _Unread(f"`{short(c, 50)}` unpacks a value that depends on the termination flags")
+                else:
+                    args.append(self.opaque(a, ctx, False))
+            else:
+                args.append(self.ev(a, ctx, at))
+        return args, {k.arg: self.ev(k.value, ctx, at) for k in c.keywords}
+
+    def call(self, c, ctx, at):
+        r = self.at_update(c, ctx, at)
+        if r is not None:
+            return r
+        f = self.ev(c.func, ctx, at)
+        if f.k == "fn" and isinstance(f.node, str):                       # method of an array / computed value
+            args, kws = self.args_of(c, ctx, at)
+            return self.lib(f.node, [f.ctx] + args, kws, c, ctx, at)
+        if f.k == "fn":
+            return self.apply(f, c, ctx, at)
+        if f.k == "tup" and f.fields == ["__at__", "__idx__"]:
+            raise _Unread("bare .at[...]")
+        if f.k == "mod":
+            args, kws = self.args_of(c, ctx, at)
+            return f.node(self, args, kws, c, ctx)
+        if f.k == "ref":
+            q = f.q or ""
+            if q.startswith("rl_blox."):
+                return self.repo_call(q, c, ctx, at)
+            short_name = q.rsplit(".", 1)[-1]
+            if q in ("flax.nnx.scan", "jax.lax.scan") and c.args:
+                return self.lax_or_lifted_scan(q, c, ctx, at)
+            if self.expand_sq and short_name in ("squared_error", "l2_loss") and q.startswith("optax."):
+                args, kws = self.args_of(c, ctx, at)
+                pr = kws.get("predictions", args[0] if args else None)
+                tg = kws.get("targets", args[1] if len(args) > 1 else None)
+                if pr is None or tg is None or len(args) + len(kws) != 2:
+                    raise _Unread(f"`{short(c, 50)}`")
+                d = self.binop(ast.Sub(), pr, tg, c, ctx)
+                sq = self.binop(ast.Mult(), d, d, c, ctx)
+                return sq if short_name == "squared_error" else self.binop(ast.Mult(), _cst(Fraction(1, 2)), sq, c, ctx)
+            if short_name in _ERRFN:
+                return self.opaque(c, ctx, False)
+            args, kws = self.args_of(c, ctx, at)
+            return self.lib(short_name, args, kws, c, ctx, at)
+        if f.k == "num":
+            # a call of a symbolic object (a module, a method of one): a new symbolic value
+            return self.opaque(c, ctx, self.taint_of(list(c.args) + [k.value for k in c.keywords], ctx, at))
+        raise _Unread(f"call `{short(c, 50)}`")
+
+    def at_update(self, c, ctx, at):
+        """x.at[idx].set(v) / .multiply(v) on a time array."""
+        fv = c.func
+        if not (isinstance(fv, ast.Attribute) and isinstance(fv.value, ast.Subscript) and isinstance(fv.value.value, ast.Attribute) and fv.value.value.attr == "at"):
+            return None
+        x = self.ev(fv.value.value.value, ctx, at)
+        if x.k != "arr" or x.axis is None or len(c.args) != 1 or c.keywords or fv.attr not in ("set", "multiply", "add", "mul"):
+            if self.vt(x):
+                raise _Unread(f"functional update `{short(c, 50)}`")
+            return self.opaque(c, ctx, self.taint_of(c.args, ctx, at))
+        parts = self.index_parts(fv.value.slice, ctx, at)
+        sel = parts + [("all",)] * (2 - len(parts))
+        if len(sel) != 2 or sel[1 - x.axis][0] != "all" or sel[x.axis][0] not in ("int", "slice"):
+            raise _Unread(f"functional update `{short(c, 50)}`")
+        v = self.ev(c.args[0], ctx, at)
+        if _cval(v) is None:
+            raise _Unread(f"functional update `{short(c, 50)}` with a symbolic value")
+        idx = list(range(len(x.cols)))
+        try:
+            idx = [idx[sel[x.axis][1]]] if sel[x.axis][0] == "int" else idx[sel[x.axis][1]]
+        except IndexError:
+            raise _Unread("index outside the time axis")
+        cols = list(x.cols)
+        for i in idx:
+            cols[i] = v.p if fv.attr == "set" else (cols[i] * v.p if fv.attr in ("multiply", "mul") else cols[i] + v.p)
+        return _V("arr", cols=cols, axis=x.axis, taint=True)
+
+    def time_axis(self, v, ax):
+        """Does the axis argument ``ax`` (a value or None) name the time axis of array v?"""
+        k = _int(ax) if ax is not None else None
+        if v.axis is None:
+            return ax is None or k in (0, -1)
+        if k is None:
+            return False
+        return k % 2 == v.axis
+
+    def lib(self, fn, args, kws, c, ctx, at):
+        fn = {"concatenate": "concat", "hstack": "concat1", "column_stack": "concat1", "vstack": "concat0", "amax": "max", "amin": "min", "cumulative_prod": "cumprod", "cumulative_sum": "cumsum",
+              "bitwise_not": "logical_not", "invert": "logical_not", "bitwise_and": "logical_and", "bitwise_or": "logical_or", "product": "prod", "mul": "multiply",
+              "swapaxes": "transpose", "moveaxis": "transpose", "permute_dims": "transpose", "matrix_transpose": "transpose"}.get(fn, fn)
+        x = args[0] if args else None
+        anyt = any(self.vt(v) for v in list(args) + list(kws.values()))
+
+        def unread(why=""):
+            if anyt:
+                raise _Unread(f"`{short(c, 60)}`{why}")
+            return self.opaque(c, ctx, False)
+        if x is None:
+            return unread()
+        if any(v.k == "arr" and v.mixed for v in list(args) + list(kws.values())) and fn not in ("astype", "asarray", "array", "stop_gradient", "transpose", "T", "copy"):
+            return unread(": an operation on a reshaped (time, -1) array")
+        if fn in _IDENT:
+            if x.k == "arr" and fn == "reshape" and x.axis == 1 and not x.stacked and len(x.cols) >= 2:
+                shp = args[1].items if len(args) == 2 and args[1].k == "tup" else args[1:]
+                dims = [_int(v) if v.k == "num" else None for v in shp]
+                if len(dims) == 2 and not kws and dims == [-1, len(x.cols)] and not x.mixed:
+                    return x                                  # (batch, time) -> (-1, time): the same array
+                if len(dims) == 2 and not kws and dims == [len(x.cols), -1] and not x.mixed:
+                    # (batch, time) -> (time, -1): NOT the transpose.  Entry [t, b] of the result is entry t * batch + b of the row-major flattened array,
+                    # i.e. [(t * batch + b) // time, (t * batch + b) % time] of the original: for batch >= 2 and time >= 2 a flag of another sample / step
+                    return _V("arr", cols=list(x.cols), axis=0, taint=x.taint, mixed=short(c, 70))
+            if x.k == "arr" and fn in ("reshape", "ravel", "flatten", "expand_dims", "view"):
+                return unread(": the layout of an array with a time axis is changed")
+            if x.k == "arr" and fn == "squeeze" and len(x.cols) == 1:
+                return _num(x.cols[0], x.taint)
+            return x if x.k in ("num", "arr") else unread()
+        if fn in ("ones_like", "zeros_like", "full_like", "ones", "zeros", "full", "empty_like"):
+            val = Poly.const(1 if fn.startswith("ones") else 0)
+            if fn.startswith("full"):
+                fv = args[1] if len(args) > 1 else kws.get("fill_value")
+                if fv is None or _cval(fv) is None:
+                    return unread()
+                val = fv.p
+            if fn.endswith("_like") and x.k == "arr":
+                return _V("arr", cols=[val] * len(x.cols), axis=x.axis)
+            return _num(val, False, fill=True)
+        if fn == "arange" and len(args) == 1 and not kws and _int(x) is not None and 0 < _int(x) <= 16:
+            return _V("arr", cols=[Poly.const(i) for i in range(_int(x))], axis=None)
+        if fn in ("cumprod", "cumsum") and x.k == "arr":
+            ax = kws.get("axis", args[1] if len(args) > 1 else None)
+            if not self.time_axis(x, ax) or (ax is None and x.axis is not None) or kws.get("reverse") is not None:
+                return unread(": not along the time axis")
+            cols, acc = [], None
+            for p in x.cols:
+                acc = p if acc is None else (acc * p if fn == "cumprod" else acc + p)
+                cols.append(acc)
+            return _V("arr", cols=cols, axis=x.axis, taint=x.taint)
+        if fn in ("prod", "sum", "mean", "all", "any", "max", "min"):
+            ax = kws.get("axis", args[1] if len(args) > 1 else None)
+            if x.k == "num":
+                if x.taint and _cval(x) not in (None, 0) and fn in ("sum", "mean", "prod"):
+                    return unread(": a statistic over the batch of a weight that depends on the termination flags")
+                if fn in ("sum", "mean") or _cval(x) is not None:
+                    return x                                 # a reduction over the batch is linear: the per-sample reading is kept
+                return unread()
+            if x.k == "tup" and fn == "sum" and len(args) == 1 and not kws and all(v.k == "num" for v in x.items):
+                tot = Poly({})
+                for v in x.items:
+                    tot = tot + v.p
+                return _num(tot, anyt)
+            if x.k != "arr":
+                return unread()
+            if fn in ("sum", "mean") and ((x.stacked and (ax is None or _int(ax) == 0)) or (ax is None and not x.taint)):
+                # the stacked per-step outputs of the roll-out (one number per step, or one per step and sample) summed over the steps
+                tot = Poly({})
+                for p in x.cols:
+                    tot = tot + p
+                return _num(tot.scale(Fraction(1, len(x.cols))) if fn == "mean" else tot, x.taint)
+            if fn in ("sum", "mean") and not x.stacked and x.axis is not None and ax is not None and _int(ax) is not None and _int(ax) % 2 == 1 - x.axis:
+                # reduction over the batch axis of a (batch, time) / (time, batch) array: linear, one value per step stays
+                return _V("arr", cols=list(x.cols), axis=0, taint=x.taint, stacked=True)
+            if ax is None or not self.time_axis(x, ax) or x.stacked:
+                return unread(": reduction of an array with a time axis not along that axis")
+            if fn in ("sum", "mean", "prod"):
+                acc = None
+                for p in x.cols:
+                    acc = p if acc is None else (acc * p if fn == "prod" else acc + p)
+                if acc is None:
+                    acc = Poly.const(1 if fn == "prod" else 0)
+                return _num(acc.scale(Fraction(1, max(1, len(x.cols)))) if fn == "mean" else acc, x.taint)
+            if all(p.is_const() for p in x.cols) and x.cols:
+                cs = [p.const_value() for p in x.cols]
+                r = {"all": Fraction(int(all(k != 0 for k in cs))), "any": Fraction(int(any(k != 0 for k in cs))), "max": max(cs), "min": min(cs)}[fn]
+                return _num(Poly.const(r), x.taint)
+            return unread()
+        if fn in ("concat", "concat1", "concat0", "stack"):
+            ax = kws.get("axis", args[1] if len(args) > 1 else None)
+            if x.k != "tup" or not x.items or any(v.k != "arr" for v in x.items) or len({v.axis for v in x.items}) != 1 or fn == "stack":
+                return unread()
+            a0 = x.items[0]
+            named = _cst(1) if fn == "concat1" else (_cst(0) if fn == "concat0" or ax is None else ax)
+            if a0.axis is None and fn == "concat1":
+                named = _cst(0)
+            if not self.time_axis(a0, named):
+                return unread(": arrays joined along the batch axis")
+            return _V("arr", cols=[p for v in x.items for p in v.cols], axis=a0.axis, taint=any(v.taint for v in x.items))
+        if fn in ("transpose", "T"):
+            if x.k == "arr":
+                return self.flip(x)
+            return x if x.k == "num" else unread()
+        if fn == "roll" and x.k == "arr" and len(x.cols):
+            sh = _int(kws.get("shift", args[1] if len(args) > 1 else None))
+            ax = kws.get("axis", args[2] if len(args) > 2 else None)
+            if sh is None or not self.time_axis(x, ax) or (ax is None and x.axis is not None):
+                return unread()
+            n = len(x.cols)
+            return _V("arr", cols=[x.cols[(i - sh) % n] for i in range(n)], axis=x.axis, taint=x.taint)
+        if fn == "flip" and x.k == "arr":
+            ax = kws.get("axis", args[1] if len(args) > 1 else None)
+            if not self.time_axis(x, ax) or (ax is None and x.axis is not None):
+                return unread()
+            return _V("arr", cols=x.cols[::-1], axis=x.axis, taint=x.taint)
+        if fn in ("where", "select") and len(args) == 3 and not kws:
+            return self.where(args[0], lambda: args[1], lambda: args[2], c, ctx)
+        if fn in ("logical_not", "logical_and", "logical_or"):
+            return self.logical(fn, args, c, ctx)
+        if fn in ("multiply", "add", "subtract", "divide", "true_divide", "power") and len(args) == 2:
+            op = {"multiply": ast.Mult(), "add": ast.Add(), "subtract": ast.Sub(), "divide": ast.Div(), "true_divide": ast.Div(), "power": ast.Pow()}[fn]
+            return self.binop(op, args[0], args[1], c, ctx)
+        if fn in ("minimum", "maximum") and len(args) == 2:
+            return self.fold((lambda cs: min(cs)) if fn == "minimum" else (lambda cs: max(cs)), args, c, ctx)
+        if fn in ("equal", "not_equal", "less", "less_equal", "greater", "greater_equal") and len(args) == 2:
+            op = {"equal": "Eq", "not_equal": "NotEq", "less": "Lt", "less_equal": "LtE", "greater": "Gt", "greater_equal": "GtE"}[fn]
+            return self.compare(op, args[0], args[1], c, ctx)
+        if fn in ("square", "negative") and len(args) == 1 and x.k in ("num", "arr"):
+            return self.binop(ast.Mult(), x, x if fn == "square" else _cst(-1), c, ctx)
+        if fn in ("abs", "absolute") and len(args) == 1 and x.k == "num" and _cval(x) is None:
+            v = self.opaque(c, ctx, False, "|abs")
+            self.abs_of[v.p.single_atom()] = x.p
+            v.taint = x.taint
+            return v
+        if fn in ("argmax", "argmin") and x.k == "arr" and x.cols and all(p.is_const() for p in x.cols):
+            ax = kws.get("axis", args[1] if len(args) > 1 else None)
+            if (ax is None and x.axis is not None) or not self.time_axis(x, ax):
+                return unread()
+            cs = [p.const_value() for p in x.cols]
+            return _num(Poly.const(cs.index(max(cs) if fn == "argmax" else min(cs))), x.taint)
+        if fn == "take_along_axis" and x.k == "arr" and len(args) >= 2:
+            k = _int(args[1])
+            ax = kws.get("axis", args[2] if len(args) > 2 else None)
+            if k is None or ax is None or not self.time_axis(x, ax) or not 0 <= k < len(x.cols):
+                return unread()
+            return _num(x.cols[k], x.taint or args[1].taint)
+        if fn in ("abs", "absolute", "sign") and len(args) == 1:
+            f = {"abs": abs, "absolute": abs, "sign": lambda k: Fraction((k > 0) - (k < 0))}[fn]
+            return self.fold(lambda cs: f(cs[0]), args, c, ctx)
+        if fn == "clip" and len(args) == 3 and all(_cval(v) is not None for v in args):
+            return _num(Poly.const(min(max(_cval(args[0]), _cval(args[1])), _cval(args[2]))), anyt)
+        if fn in ("tuple", "list") and len(args) == 1 and x.k == "tup":
+            return x
+        if fn == "zip" and args and not kws and all(v.k == "tup" for v in args) and len({len(v.items) for v in args}) == 1:
+            return _V("tup", items=[_V("tup", items=[v.items[i] for v in args], taint=any(self.vt(v.items[i]) for v in args)) for i in range(len(x.items))], taint=anyt)
+        if fn in ("take", "dynamic_index_in_dim") and x.k == "arr" and len(args) >= 2:
+            k = _int(args[1])
+            ax = kws.get("axis", args[2] if len(args) > 2 else None)
+            kd = kws.get("keepdims", args[3] if len(args) > 3 and fn == "dynamic_index_in_dim" else None)
+            if k is None or ax is None or not self.time_axis(x, ax) or not 0 <= k < len(x.cols) or (fn == "dynamic_index_in_dim" and (kd is None or _cval(kd) != 0)) or (fn == "take" and kd is not None):
+                return unread()
+            return _num(x.cols[k], x.taint)
+        return unread()
+
+    # -- functions of the repository, closures, scans ---------------------------------------------------------------------------
+    def returns(self, fn, ctx):
+        if isinstance(fn, ast.Lambda):
+            ctx.local.update(ctx.bind)
+            return self.ev(fn.body, ctx, None)
+        rets = []
+        stack = list(fn.body)
+        while stack:
+            s = stack.pop()
+            if isinstance(s, (ast.FunctionDef, ast.AsyncFunctionDef, ast.ClassDef, ast.Lambda)):
+                continue
+            if isinstance(s, ast.Return):
+                rets.append(s)
+            stack.extend(ast.iter_child_nodes(s))
+        if not rets or any(r.value is None for r in rets):
+            raise _Unread(f"`{getattr(fn, 'name', 'lambda')}` has no value-returning statement")
+        vals = [self.ev(r.value, ctx, ctx.cfg.node_of(r).id) for r in rets]
+        if all(self.same(vals[0], v) for v in vals[1:]):
+            return vals[0]
+        raise _Unread(f"`{fn.name}` returns different values on different paths")
+
+    def bind(self, fn, c, ctx, at, extra_first=None):
+        if any(isinstance(a, ast.Starred) for a in c.args) or any(k.arg is None for k in c.keywords):
+            raise _Unread(f"`{short(c, 50)}` passes packed arguments")
+        a = fn.args
+        if a.vararg or a.kwarg:
+            raise _Unread(f"`{getattr(fn, 'name', 'lambda')}` takes packed parameters")
+        names = [x.arg for x in a.posonlyargs + a.args]
+        if len(c.args) > len(names):
+            raise _Unread(f"`{short(c, 50)}`: too many arguments")
+        out = {}
+        for n_, e in zip(names, c.args):
+            out[n_] = self.ev(e, ctx, at)
+        for k in c.keywords:
+            out[k.arg] = self.ev(k.value, ctx, at)
+        # defaults
+        pos_defaults = dict(zip(names[len(names) - len(a.defaults):], a.defaults))
+        for n_, d in list(pos_defaults.items()) + [(x.arg, d) for x, d in zip(a.kwonlyargs, a.kw_defaults) if d is not None]:
+            if n_ not in out:
+                out[n_] = self.ev(d, ctx, None) if isinstance(d, ast.Constant) else self.opaque(d, ctx, False)
+        return out
+
+    def repo_call(self, q, c, ctx, at):
+        repo = self.repo
+        short_name = q.rsplit(".", 1)[-1]
+        if short_name in _ERRFN:
+            return self.opaque(c, ctx, False)
+        try:
+            mi, node = repo.lookup(q)
+        except Exception:
+            node = None
+        if isinstance(node, ast.ClassDef):
+            fields = [s.target.id for s in node.body if isinstance(s, ast.AnnAssign) and isinstance(s.target, ast.Name)]
+            is_record = any((isinstance(b, ast.Name) and b.id == "NamedTuple") or (isinstance(b, ast.Attribute) and b.attr == "NamedTuple") for b in node.bases)
+            if is_record and fields:
+                args, kws = self.args_of(c, ctx, at)
+                if len(args) + len(kws) == len(fields) and all(k in fields for k in kws):
+                    items = list(args) + [None] * (len(fields) - len(args))
+                    for k, v in kws.items():
+                        items[fields.index(k)] = v
+                    if all(v is not None for v in items):
+                        return _V("tup", items=items, fields=fields, taint=any(self.vt(v) for v in items))
+            raise _Unread(f"construction `{short(c, 50)}`")
+        if not isinstance(node, ast.FunctionDef):
+            t = self.taint_of(list(c.args) + [k.value for k in c.keywords], ctx, at)
+            if t:
+                raise _Unread(f"call `{short(c, 50)}` with arguments that depend on the termination flags")
+            return self.opaque(c, ctx, False)
+        node._module = mi
+        f = _V("fn", node=node, ctx=None)
+        f.q = mi
+        try:
+            return self.apply(f, c, ctx, at)
+        except _Unread:
+            if self.taint_of(list(c.args) + [k.value for k in c.keywords], ctx, at):
+                raise
+            return self.opaque(c, ctx, False)
+
+    def scan_decorator(self, fn, dctx):
+        """The nnx.scan(...) decorator of a function, None for an undecorated / jit-compiled one."""
+        found = None
+        for d in getattr(fn, "decorator_list", []) or []:
+            head = d.func if isinstance(d, ast.Call) else d
+            q = self.repo.resolve_expr(dctx.mi, head) if isinstance(head, (ast.Name, ast.Attribute)) else None
+            if q == "functools.partial" and isinstance(d, ast.Call) and d.args and isinstance(d.args[0], (ast.Name, ast.Attribute)):
+                q = self.repo.resolve_expr(dctx.mi, d.args[0])
+                if q == "flax.nnx.scan":
+                    raise _Unread("scan bound through functools.partial")
+            if q in ("jax.jit", "flax.nnx.jit"):
+                continue
+            if q == "flax.nnx.scan" and isinstance(d, ast.Call) and found is None:
+                found = d
+                continue
+            raise _Unread(f"decorator `{short(d, 40)}` of `{fn.name}`")
+        return found
+
+    def apply(self, f, c, ctx, at):
+        fn = f.node
+        if ctx.depth > 6:
+            raise _Unread("call depth")
+        dctx = f.ctx
+        mi = dctx.mi if dctx is not None else f.q
+        dec = self.scan_decorator(fn, dctx if dctx is not None else _Ctx(self, fn, mi, {}, "", None, None, ctx.depth + 1)) if isinstance(fn, ast.FunctionDef) else None
+        binding = self.bind(fn, c, ctx, at)
+        parent_at = None
+        if dctx is not None:
+            parent_at = at if dctx is ctx else (dctx.cfg.node_of(fn).id if isinstance(fn, ast.FunctionDef) else None)
+        if dec is None:
+            sub = _Ctx(self, fn, mi, binding, ctx.tag + f"/{getattr(c, 'lineno', 0)}.{getattr(c, 'col_offset', 0)}", dctx, parent_at, ctx.depth + 1)
+            return self.returns(fn, sub)
+        kw = {k.arg: k.value for k in dec.keywords}
+        if dec.args or set(kw) - {"in_axes", "out_axes", "length"}:
+            raise _Unread(f"scan options `{short(dec, 60)}`")
+        names = [x.arg for x in fn.args.posonlyargs + fn.args.args]
+        dat = dctx.cfg.node_of(fn).id if dctx is not None and dctx.fn is not fn else None
+        actx = dctx if dctx is not None else _Ctx(self, fn, mi, {}, "", None, None, ctx.depth + 1)
+        ia = self.axes(kw.get("in_axes"), actx, len(names), dat)
+        oa = self.axes(kw.get("out_axes"), actx, None, dat)
+        if any(n_ not in binding for n_ in names):
+            raise _Unread(f"`{short(c, 50)}` does not pass every argument of the scanned function")
+        length = _int(self.ev(kw["length"], actx, dat)) if "length" in kw else None
+        if "length" in kw and length is None:
+            raise _Unread(f"scan length `{short(kw['length'], 40)}`")
+        return self.scan(fn, mi, dctx, parent_at, names, [binding[n_] for n_ in names], ia, oa, ctx, c, length)
+
+    def axes(self, e, dctx, n, at=None):
+        """in_axes / out_axes as a list of 'carry' / None / int."""
+        if e is None:
+            return ["carry", 0] if n in (None, 2) else None
+        if not isinstance(e, ast.Tuple):
+            raise _Unread(f"scan axes `{short(e, 40)}`")
+        out = []
+        for x in e.elts:
+            v = self.ev(x, dctx, at)
+            if v.k == "ref" and v.q and v.q.endswith(".Carry"):
+                out.append("carry")
+            elif v.k == "none":
+                out.append(None)
+            elif _int(v) is not None:
+                out.append(_int(v))
+            else:
+                raise _Unread(f"scan axis `{short(x, 30)}`")
+        if n is not None and len(out) != n:
+            raise _Unread("scan in_axes do not match the parameters of the scanned function")
+        return out
+
+    def step_of(self, v, ax, t, e):
+        if v.k == "tup":
+            return _V("tup", items=[self.step_of(x, ax, t, e) for x in v.items], fields=v.fields, taint=v.taint)
+        if v.k == "arr":
+            if v.axis is None and ax in (0, -1) or v.axis is not None and ax % 2 == v.axis:
+                return self.entry(v, v.cols[t])
+            raise _Unread(f"`{short(e, 50)}` scans an array with a time axis along its batch axis")
+        if v.k == "num" and not v.taint:
+            a = v.p.single_atom()
+            if a is not None:
+                return _num(Poly.atom(a[:-1] + f"[{t}]›"))
+        raise _Unread(f"`{short(e, 50)}` scans over a value whose time axis is not visible")
+
+    def length_of(self, v, ax):
+        if v.k == "tup":
+            ls = {self.length_of(x, ax) for x in v.items} - {None}
+            return ls.pop() if len(ls) == 1 else (None if not ls else -1)
+        if v.k == "arr":
+            return len(v.cols)
+        return None
+
+    def stack(self, vals, e):
+        v0 = vals[0]
+        if all(v.k == "num" for v in vals):
+            return _V("arr", cols=[v.p for v in vals], axis=0, stacked=True, taint=any(v.taint for v in vals))
+        if all(v.k == "tup" and len(v.items) == len(v0.items) for v in vals):
+            return _V("tup", items=[self.stack([v.items[i] for v in vals], e) for i in range(len(v0.items))], fields=v0.fields, taint=any(v.taint for v in vals))
+        raise _Unread(f"per-step outputs of `{short(e, 50)}`")
+
+    def scan(self, fn, mi, dctx, parent_at, names, vals, ia, oa, ctx, c, length=None):
+        if ia is None or ia.count("carry") != 1:
+            raise _Unread("scan without exactly one carried argument")
+        lens = ({self.length_of(v, a) for v, a in zip(vals, ia) if isinstance(a, int)} | {length}) - {None}
+        if len(lens) != 1 or -1 in lens:
+            raise _Unread(f"`{short(c, 50)}`: the number of roll-out steps is not visible")
+        steps = lens.pop()
+        if not 0 < steps <= 8:
+            raise _Unread("number of roll-out steps")
+        ci = ia.index("carry")
+        carry = vals[ci]
+        outs = []
+        for t in range(steps):
+            b = {}
+            for n_, v, a in zip(names, vals, ia):
+                b[n_] = carry if a == "carry" else (v if a is None else self.step_of(v, a, t, c))
+            sub = _Ctx(self, fn, mi, b, ctx.tag + f"§{t}", dctx, parent_at, ctx.depth + 1)
+            r = self.returns(fn, sub)
+            if r.k != "tup" or len(r.items) != len(oa) or oa.count("carry") != 1:
+                raise _Unread(f"`{getattr(fn, 'name', 'lambda')}` does not return (carry, outputs...) as its out_axes say")
+            carry = r.items[oa.index("carry")]
+            outs.append([x for x, a in zip(r.items, oa) if a != "carry"])
+            if any(a is None for a in oa):
+                raise _Unread("scan output that is not stacked")
+        res, k = [], 0
+        for a in oa:
+            if a == "carry":
+                res.append(carry)
+            else:
+                res.append(self.stack([o[k] for o in outs], c))
+                k += 1
+        return _V("tup", items=res, taint=any(self.vt(x) for x in res))
+
+    def lax_or_lifted_scan(self, q, c, ctx, at):
+        """jax.lax.scan(f, init, xs) with f(carry, x) -> (carry, y)."""
+        if q != "jax.lax.scan":
+            raise _Unread(f"`{short(c, 50)}`")
+        kw = {k.arg: k.value for k in c.keywords}
+        pos = list(c.args) + [None] * 3
+        f_e, init_e, xs_e = pos[0], kw.get("init", pos[1]), kw.get("xs", pos[2])
+        if len(c.args) > 3 or set(kw) - {"init", "xs"} or init_e is None or xs_e is None:
+            raise _Unread(f"scan options `{short(c, 60)}`")
+        f = self.ev(f_e, ctx, at)
+        if f.k != "fn" or isinstance(f.node, str):
+            raise _Unread(f"scanned function `{short(f_e, 40)}`")
+        fn = f.node
+        names = [x.arg for x in fn.args.posonlyargs + fn.args.args]
+        if len(names) != 2:
+            raise _Unread("scanned function must take (carry, x)")
+        dctx = f.ctx
+        parent_at = at if dctx is ctx else (dctx.cfg.node_of(fn).id if isinstance(fn, ast.FunctionDef) else None)
+        return self.scan(fn, dctx.mi, dctx, parent_at, names, [self.ev(init_e, ctx, at), self.ev(xs_e, ctx, at)], ["carry", 0], ["carry", 0], ctx, c)
+
+
+def _leaves(v, path=()):
+    if v.k == "tup":
+        out = []
+        for i, x in enumerate(v.items):
+            out += _leaves(x, path + ((v.fields[i] if v.fields else i),))
+        return out
+    if v.k == "num":
+        return [(path, v.p)]
+    raise _Unread("the result of the loss is not a (nested) tuple of numbers")
+
+
+def _by_step(p: Poly):
+    """{step: sub-polynomial of the monomials that contain an atom computed in that roll-out step}; monomials without one under None."""
+    out = {}
+    for mono, c in p.terms.items():
+        steps = {int(m.group(1)) for a, _k in mono for m in [_STEP.search(a)] if m}
+        if len(steps) > 1:
+            raise _Unread("a term of the loss mixes symbolic values of different roll-out steps")
+        k = steps.pop() if steps else None
+        out[k] = out.get(k, Poly({})) + Poly({mono: c})
+    return out
+
+
+def _encoder_rollout(ck, repo):
+    from itertools import product
+    fn = repo.func(_ENC)
+    mi = fn._module
+    where = loc(mi, fn)
+    _env, ren = _roles_env(repo, fn, _ENC)
+    bp, hp = _actual(ren, "batch"), _actual(ren, "encoder_horizon")
+    ps = param_names(fn)
+    ck.need(bp in ps and hp in ps, f"{_ENC}: parameters `batch` / `encoder_horizon` vanished (anchor vanished)")
+    res = {}
+    for w in product((0, 1), repeat=_HZ):
+        ev = _Rollout(repo, w)
+        bind = {bp: _V("batch"), hp: _cst(_HZ)}
+        try:
+            ctx = _Ctx(ev, fn, mi, bind, "")
+            leaves = _leaves(ev.returns(fn, ctx))
+            bad = sorted(a for _p, p in leaves for a in p.atoms() if a in ev.tainted)
+            if bad:
+                raise _Unread(f"the loss contains `{bad[0][:70]}`, a value that depends on the termination flags in a way this rule does not read")
+            res[w] = [(path, _by_step(p)) for path, p in leaves]
+        except _AxisMixup as e:
+            ck.ob("R8-rollout-mask", _ENC, "per-sample-weight", False, f"terminated[b, :] = {list(w)}", str(e), where)
+            return
+        except _Unread as e:
+            raise AnalysisError(f"{_ENC}: {e} (unrecognised form)")
+        except (RecursionError, KeyError, IndexError, AttributeError, TypeError, ValueError, ZeroDivisionError) as e:
+            raise AnalysisError(f"{_ENC}: the roll-out evaluator could not read the function ({type(e).__name__}: {str(e)[:80]}) (unrecognised form)")
+    w0 = (0,) * _HZ
+    base = res[w0]
+    if any([p for p, _ in res[w]] != [p for p, _ in base] for w in res):
+        raise AnalysisError(f"{_ENC}: the shape of the result depends on the termination flags (unrecognised form)")
+    checked = 0
+    for li, (path, b) in enumerate(base):
+        steps = sorted(k for k in b if k is not None)
+        if not steps:
+            continue
+        name = "result" + "".join(f"[{x}]" if isinstance(x, int) else f".{x}" for x in path)
+        if steps != list(range(_HZ)):
+            raise AnalysisError(f"{_ENC}: {name} shows roll-out steps {steps} of {_HZ} (unrecognised form)")
+        checked += 1
+        bad = None
+        for w in sorted(res):
+            if w == w0:
+                continue
+            first = w.index(1)
+            got = res[w][li][1]
+            for t in steps:
+                g, b0 = got.get(t, Poly({})), b[t]
+                if t > first and not g.is_zero():
+                    bad = (w, t, f"a subtrajectory whose step {first} is terminated still contributes the errors of the later step {t}: `{g.canon()[:110]}`")
+                elif t == first and g.is_zero():
+                    bad = (w, t, f"the errors of the terminated transition itself (step {t}) are weighted 0: the weight of step t must be the product of (1 - terminated) over the EARLIER steps only")
+                elif t < first and g != b0:
+                    bad = (w, t, f"the contribution of step {t} changes with the termination flag of the later step {first}: `{g.canon()[:80]}` instead of `{b0.canon()[:80]}`")
+                if bad:
+                    break
+            if bad:
+                break
+        shown = f"{name}: steps after the first terminated one vanish, the steps up to and including it count, for all {2 ** _HZ} termination patterns of a horizon of {_HZ}"
+        ck.ob("R8-rollout-mask", _ENC, f"post-terminal-weight:{name}", bad is None, shown if bad is None else f"{name} with terminated[b, :] = {list(bad[0])}, roll-out step {bad[1]}",
+              "" if bad is None else bad[2], where)
+    if not checked:
+        raise AnalysisError(f"{_ENC}: no component of the result shows the errors of the roll-out steps (unrecognised form)")
+
+
+# ---- double-Q selection, read per order of the online action values ------------------------------------------------------------
+def _ddqn_selection(ck, repo, order):
+    """The double-Q bootstrap is the target value of ONE action, a maximiser of the online values.  Read by evaluation: the online values at the
+    successor observation are numbers (one world per order pattern of three actions, ties included), the target values symbolic.  With a unique
+    maximiser a the loss must be the same function of T_a in every world; in a world with ties it must be the loss of one of the tied actions.
+    A loss the evaluator does not read is left to the census (nothing is claimed here)."""
+    unique = {(2, 1, 0): 0, (0, 2, 1): 1, (0, 1, 2): 2}
+    ties = {(1, 1, 0): (0, 1), (0, 1, 1): (1, 2), (1, 0, 1): (0, 2), (1, 1, 1): (0, 1, 2)}
+    for qual in (L + "ddqn_loss", L + "ddqn_per_loss"):
+        fn = repo.func(qual)
+        mi = fn._module
+        _env, ren = _roles_env(repo, fn, qual)
+        qn, qt, bn = _actual(ren, "q"), _actual(ren, "q_target"), _actual(ren, "batch")
+        if not {qn, qt, bn} <= set(param_names(fn)):
+            continue
+        vals = {}
+        try:
+            for w in list(unique) + list(ties):
+                ev = _Rollout(repo, ())
+                ev.expand_sq = True
+                succ = "‹successor›"
+
+                def module(sym, w=w, succ=succ):
+                    def call(ev_, args, kws, c, ctx):
+                        if len(args) == 1 and not kws and args[0].k == "num" and args[0].p.single_atom() == succ:
+                            if sym is None:
+                                return _V("arr", cols=[Poly.const(x) for x in w], axis=1, taint=True)
+                            return _V("arr", cols=[Poly.atom(f"‹{sym}{i}›") for i in range(len(w))], axis=1)
+                        if any(ev_.vt(a) for a in list(args) + list(kws.values())):
+                            raise _Unread("a network applied to a value that depends on the online action values")
+                        return ev_.opaque(c, ctx, False)
+                    return call
+                items = [_num(Poly.atom(f"‹{f}›")) for f in order[:5]]
+                items[3] = _num(Poly.atom(succ))
+                bind = {qn: _V("mod", node=module(None)), qt: _V("mod", node=module("T")), bn: _V("tup", items=items, fields=list(order[:5]))}
+                r = ev.returns(fn, _Ctx(ev, fn, mi, bind, ""))
+                loss = _leaves(r)[0][1]
+                if any(a in ev.abs_of or a in ev.tainted for a in loss.atoms()):
+                    raise _Unread("the loss keeps a symbolic term that hides the bootstrap")
+                vals[w] = loss
+        except (_Unread, RecursionError, KeyError, IndexError, AttributeError, TypeError, ValueError, ZeroDivisionError):
+            continue
+        ts = [f"‹T{i}›" for i in range(3)]
+        X = Poly.atom("‹T›")
+        if not any(t in vals[w].atoms() for w in vals for t in ts):
+            continue                       # the target values do not reach the loss as far as this reading shows: nothing to compare
+        where = loc(mi, fn)
+        forms = {w: vals[w].subst({ts[a]: X}) for w, a in unique.items()}
+        ref = forms[(2, 1, 0)]
+        bad = next((w for w in forms if forms[w] != ref or any(t in forms[w].atoms() for t in ts)), None)
+        ck.ob("R2-bootstrap-kind", qual, "selection-follows-online-maximum", bad is None,
+              "with a unique maximal online value the loss is one function of the target value of that action" if bad is None else f"online values at the successor = {list(bad)}",
+              "" if bad is None else f"the bootstrap is not the target value of the action with the largest online value: loss `{vals[bad].canon()[:140]}`", where)
+        if bad is not None:
+            continue
+        bad = next((w for w, acts in ties.items() if not any(vals[w] == ref.subst({"‹T›": Poly.atom(ts[a])}) for a in acts)), None)
+        ck.ob("R2-bootstrap-kind", qual, "selection-under-ties", bad is None,
+              "with tied maximal online values the loss is that of one of the tied actions" if bad is None else f"online values at the successor = {list(bad)} (tie)",
+              "" if bad is None else f"with tied maximal online values the bootstrap is not the target value of a single maximising action: loss `{vals[bad].canon()[:160]}`", where)
+
+
 # ---- self-validation variants -------------------------------------------------------------------------------
 _F = "rl_blox/blox/losses.py"
+_EF = "rl_blox/blox/embedding/model_based_encoder.py"
+_DDQN_SEL = "    indices = jnp.argmax(next_q, axis=1).reshape(-1, 1)\n    next_q_t = jax.lax.stop_gradient(q_target(next_obs))\n    next_vals = jnp.take_along_axis(next_q_t, indices, axis=1).squeeze()\n"
 _TD3T = "    q_next = jax.lax.stop_gradient(q_target(next_obs_act).squeeze())\n    q_target_value = reward + (1 - terminated) * gamma * q_next\n    return _mse_clipped_double_q_loss(q_target_value, q, action, observation)\n\n\ndef _mse"
 MUTANTS = [
     {"id": "c03-td3-mask-dropped", "file": _F, "rule": "R1", "find": _TD3T, "replace": _TD3T.replace("reward + (1 - terminated) * gamma * q_next", "reward + gamma * q_next")},
@@ -1220,6 +2472,25 @@ MUTANTS = [
     {"id": "c03-td3-bootstrap-not-frozen", "file": _F, "rule": "R4", "nth": 0, "find": '    q_next = jax.lax.stop_gradient(q_target(next_obs_act).squeeze())\n    q_target_value = reward + (1 - terminated) * gamma * q_next\n', "replace": '    q_next = q_target(next_obs_act).squeeze()\n    q_target_value = reward + (1 - terminated) * gamma * q_next\n'},
     {"id": "c03-sac-next-value-not-frozen", "file": _F, "rule": "R4", "find": "    q_next_target = jax.lax.stop_gradient(\n        q_target(next_obs_act).squeeze() - alpha * next_log_pi\n    )\n", "replace": "    q_next_target = q_target(next_obs_act).squeeze() - jax.lax.stop_gradient(alpha * next_log_pi)\n"},
     {"id": "c03-mrq-target-not-frozen", "file": "rl_blox/algorithm/mrq.py", "rule": "R4", "find": "    q_next = jax.lax.stop_gradient(", "replace": "    q_next = (", "accept_error": True},
+    # double-Q selection read per order of the online action values (ties included)
+    {"id": "c03-ddqn-all-maximisers-summed", "file": _F, "rule": "R2", "nth": 0, "find": _DDQN_SEL,
+     "replace": "    greedy = (next_q >= next_q.max(axis=1, keepdims=True)).astype(next_q.dtype)\n    next_q_t = jax.lax.stop_gradient(q_target(next_obs))\n    next_vals = (greedy * next_q_t).sum(axis=1)\n"},
+    {"id": "c03-per-maximisers-averaged", "file": _F, "rule": "R2", "nth": 1, "find": _DDQN_SEL,
+     "replace": "    greedy = (next_q >= next_q.max(axis=1, keepdims=True)).astype(next_q.dtype)\n    next_q_t = jax.lax.stop_gradient(q_target(next_obs))\n    next_vals = (greedy * next_q_t).sum(axis=1) / greedy.sum(axis=1)\n"},
+    # R8: the weight of roll-out step t of the encoder loss, read per termination pattern
+    {"id": "c03-enc-current-flag-in-dynamics-weight", "file": _EF, "rule": "R8", "find": "        dynamics_loss = masked_mse_loss(pred_zs_t, target_zs_t, prev_not_done)", "replace": "        dynamics_loss = masked_mse_loss(pred_zs_t, target_zs_t, not_done[:, t] * prev_not_done)"},
+    {"id": "c03-enc-weight-forgets-earlier-steps", "file": _EF, "rule": "R8", "find": "        prev_not_done = not_done[:, t] * prev_not_done\n", "replace": "        prev_not_done = jnp.minimum(not_done[:, t], 1.0)\n"},
+    {"id": "c03-enc-first-step-weight-is-first-flag", "file": _EF, "rule": "R8", "find": "    prev_not_done = jnp.ones_like(not_done[:, 0])", "replace": "    prev_not_done = not_done[:, 0]"},
+    {"id": "c03-enc-done-term-unweighted", "file": _EF, "rule": "R8", "find": "                target_done_t[:, jnp.newaxis],\n                prev_not_done,\n", "replace": "                target_done_t[:, jnp.newaxis],\n                jnp.ones_like(prev_not_done),\n"},
+    {"id": "c03-enc-precomputed-previous-step-only", "file": _EF, "rule": "R8", "edits": [
+        ("    prev_not_done = jnp.ones_like(not_done[:, 0])\n", "    prev_not_done = jnp.ones_like(not_done[:, 0])\n    alive = jnp.concatenate([jnp.ones_like(not_done[:, :1]), not_done[:, :-1]], axis=1)\n"),
+        ("        pred_zs_t, prev_not_done = zs_t_and_prev_not_done\n", "        pred_zs_t, _carried = zs_t_and_prev_not_done\n        prev_not_done = not_done[:, t]\n"),
+        ("        next_zs,\n        not_done,\n        environment_terminates,\n        jnp.arange(encoder_horizon),", "        next_zs,\n        alive,\n        environment_terminates,\n        jnp.arange(encoder_horizon),")]},
+    {"id": "c03-enc-time-major-by-reshape", "file": _EF, "rule": "R8", "edits": [
+        ("        in_axes=(nnx.Carry, None, None, None, None, None, None, 0),", "        in_axes=(nnx.Carry, None, None, None, None, 0, None, 0),"),
+        ("        prev_not_done = not_done[:, t] * prev_not_done\n", "        prev_not_done = prev_not_done * not_done\n"),
+        ("        next_zs,\n        not_done,\n        environment_terminates,\n        jnp.arange(encoder_horizon),", "        next_zs,\n        jnp.reshape(not_done, (encoder_horizon, -1)),\n        environment_terminates,\n        jnp.arange(encoder_horizon),")]},
+    {"id": "c03-enc-where-mask-inverted", "file": _EF, "rule": "R8", "accept_error": True, "find": "        prev_not_done = not_done[:, t] * prev_not_done\n", "replace": "        prev_not_done = jnp.where(batch.terminated[:, t] > 0, prev_not_done, jnp.zeros_like(prev_not_done))\n"},
 ]
 BENIGN = [
     {"id": "c03-b-lap-whole-target-frozen", "file": _F, "nth": 1, "find": '    q_next = jax.lax.stop_gradient(q_target(next_obs_act).squeeze())\n    q_target_value = reward + (1 - terminated) * gamma * q_next\n', "replace": '    q_next = q_target(next_obs_act).squeeze()\n    q_target_value = jax.lax.stop_gradient(reward + (1 - terminated) * gamma * q_next)\n'},
@@ -1256,4 +2527,26 @@ BENIGN = [
     {"id": "c03-b-buffer-keys-constant", "file": "rl_blox/blox/replay_buffer.py", "nth": 0, "edits": [
         ("            keys = [\n                \"observation\",\n                \"action\",\n                \"reward\",\n                \"next_observation\",\n                \"termination\",\n            ]\n", "            keys = list(_DEFAULT_KEYS)\n"),
         ("import copy\n", "import copy\n\n_DEFAULT_KEYS = (\"observation\", \"action\", \"reward\", \"next_observation\", \"termination\")\n")]},
+    {"id": "c03-b-ddqn-method-argmax-last-axis", "file": _F, "nth": 0, "find": _DDQN_SEL,
+     "replace": "    indices = next_q.argmax(axis=-1).reshape(-1, 1)\n    next_q_t = jax.lax.stop_gradient(q_target(next_obs))\n    next_vals = jnp.take_along_axis(next_q_t, indices, axis=-1).squeeze()\n"},
+    {"id": "c03-b-per-selection-expand-dims", "file": _F, "nth": 1, "find": _DDQN_SEL,
+     "replace": "    next_q_t = jax.lax.stop_gradient(q_target(next_obs))\n    greedy_action = jnp.argmax(next_q, axis=1)\n    next_vals = jnp.take_along_axis(next_q_t, jnp.expand_dims(greedy_action, 1), axis=1).squeeze()\n"},
+    # R8: other ways to organise the post-terminal weight of the encoder roll-out
+    {"id": "c03-b-enc-precomputed-exclusive-weight", "file": _EF, "edits": [
+        ("    prev_not_done = jnp.ones_like(not_done[:, 0])\n", "    prev_not_done = jnp.ones_like(not_done[:, 0])\n    alive = jnp.concatenate([jnp.ones_like(not_done[:, :1]), jnp.cumprod(not_done, axis=1)[:, :-1]], axis=1)\n"),
+        ("        pred_zs_t, prev_not_done = zs_t_and_prev_not_done\n", "        pred_zs_t, _carried = zs_t_and_prev_not_done\n        prev_not_done = not_done[:, t]\n"),
+        ("        next_zs,\n        not_done,\n        environment_terminates,\n        jnp.arange(encoder_horizon),", "        next_zs,\n        alive,\n        environment_terminates,\n        jnp.arange(encoder_horizon),")]},
+    {"id": "c03-b-enc-flags-scanned-time-major", "file": _EF, "edits": [
+        ("        in_axes=(nnx.Carry, None, None, None, None, None, None, 0),", "        in_axes=(nnx.Carry, None, None, None, None, 0, None, 0),"),
+        ("        prev_not_done = not_done[:, t] * prev_not_done\n", "        prev_not_done = prev_not_done * not_done\n"),
+        ("        next_zs,\n        not_done,\n        environment_terminates,\n        jnp.arange(encoder_horizon),", "        next_zs,\n        jnp.transpose(not_done),\n        environment_terminates,\n        jnp.arange(encoder_horizon),")]},
+    {"id": "c03-b-enc-flags-reshaped-to-same-layout", "file": _EF, "find": "    not_done = 1 - batch.terminated\n", "replace": "    not_done = (1 - batch.terminated).reshape(-1, encoder_horizon)\n"},
+    {"id": "c03-b-enc-where-mask-update", "file": _EF, "find": "        prev_not_done = not_done[:, t] * prev_not_done\n", "replace": "        prev_not_done = jnp.where(batch.terminated[:, t] > 0, jnp.zeros_like(prev_not_done), prev_not_done)\n"},
+    {"id": "c03-b-enc-logical-not-flags", "file": _EF, "find": "    not_done = 1 - batch.terminated\n", "replace": "    not_done = jnp.logical_not(batch.terminated).astype(jnp.float32)\n"},
+    {"id": "c03-b-enc-done-term-python-branch", "file": _EF, "find": "        done_loss = jnp.where(\n            environment_terminates,\n            masked_mse_loss(\n                pred_done_t[:, jnp.newaxis],\n                target_done_t[:, jnp.newaxis],\n                prev_not_done,\n            ),\n            0.0,\n        )\n",
+     "replace": "        if environment_terminates:\n            done_loss = masked_mse_loss(\n                pred_done_t[:, jnp.newaxis],\n                target_done_t[:, jnp.newaxis],\n                prev_not_done,\n            )\n        else:\n            done_loss = jnp.zeros(())\n"},
+    {"id": "c03-b-enc-reward-term-weighted-mean-by-hand", "file": _EF, "find": "        reward_loss = jnp.mean(\n            two_hot_cross_entropy_loss(\n                the_bins, pred_reward_logits_t, target_reward_t\n            )\n            * prev_not_done\n        )\n",
+     "replace": "        per_sample_ce = two_hot_cross_entropy_loss(\n            the_bins, pred_reward_logits_t, target_reward_t\n        )\n        reward_loss = jnp.sum(jnp.multiply(prev_not_done, per_sample_ce)) / per_sample_ce.shape[0]\n"},
+    {"id": "c03-b-enc-done-error-by-hand", "file": _EF, "find": "            masked_mse_loss(\n                pred_done_t[:, jnp.newaxis],\n                target_done_t[:, jnp.newaxis],\n                prev_not_done,\n            ),\n            0.0,\n",
+     "replace": "            jnp.mean(jnp.square(pred_done_t - target_done_t) * prev_not_done),\n            0.0,\n"},
 ]
